@@ -1,4 +1,4 @@
 From Coq Require Import List Bool Arith NArith Extraction ExtrOcamlBasic.
-From TP Require Import Model.WebIde Spec.C19Judge.
+From TP Require Import Model.WebIde Model.WebIdeDocs Spec.C19Judge.
 Extraction Language OCaml.
-Extraction "../.cache/ml/c19_model.ml" judge predicted_class predicted_path drun w_init N.of_nat.
+Extraction "../.cache/ml/c19_model.ml" judge predicted_class predicted_path drun w_init N.of_nat mrun.
